@@ -206,7 +206,8 @@ func (l *srcLog) show(name string) string {
 type registry struct {
 	static  []*srcLog
 	dynamic []*srcLog
-	taps    []*tapS // one in front of every stream.WithPeek / stream.Runs of the case, in build order
+	taps    []*tapS      // one in front of every stream.WithPeek / stream.Runs of the case, in build order
+	fromits []*fromitRec // one around every stream.FromIterator of the case (conserve.go: fromitConservation)
 }
 
 func (r *registry) show() string {
@@ -473,6 +474,67 @@ func (t *tapS) Next(ctx context.Context) (any, error) {
 }
 func (t *tapS) Close() { t.inner.Close() }
 
+// tapI: the same recorder for an iterator (what the iterator delivered to whoever pulled from it).
+type tapI struct {
+	inner iterator.Iterator[any]
+	got   []any
+	ended bool
+}
+
+func (t *tapI) Next() (any, bool) {
+	x, ok := t.inner.Next()
+	if ok {
+		t.got = append(t.got, x)
+	} else {
+		t.ended = true
+	}
+	return x, ok
+}
+
+// fromitRec: the two recorders around one stream.FromIterator -- `in` (what the iterator delivered to it) and
+// `out` (what it handed to its consumer, whether it reported the end) -- and the first executed line after
+// which "the stream yields the values from iter" no longer held (badAt < 0: it held throughout).
+type fromitRec struct {
+	in    *tapI
+	out   *tapS
+	badAt int
+	what  string
+}
+
+// tappedFromIterator builds stream.FromIterator(it) between two recorders (neither is registered among reg.taps:
+// those are the recorders of WithPeek / Runs).
+func tappedFromIterator(reg *registry, it iterator.Iterator[any]) stream.Stream[any] {
+	in := &tapI{inner: it}
+	out := &tapS{inner: stream.FromIterator[any](in)}
+	reg.fromits = append(reg.fromits, &fromitRec{in: in, out: out, badAt: -1})
+	return out
+}
+
+// judge: the items handed out so far are the first items the iterator delivered, in order (none invented, none
+// skipped), and the end is reported only after the iterator's end with everything delivered handed out.
+func (r *fromitRec) judge(line int) {
+	if r.badAt >= 0 {
+		return
+	}
+	in, out := r.in.got, r.out.got
+	bad := func(f string, a ...interface{}) {
+		r.badAt, r.what = line, fmt.Sprintf(f, a...)+fmt.Sprintf(" (the iterator delivered %s, the stream handed out %s)", showList(in), showList(out))
+	}
+	for i, x := range out {
+		if i >= len(in) {
+			bad("the stream handed out item %s which the iterator has not delivered", showV(x))
+			return
+		}
+		if showV(in[i]) != showV(x) {
+			bad("item %d handed out by the stream is %s, item %d delivered by the iterator is %s: an item was skipped or invented", i, showV(x), i, showV(in[i]))
+			return
+		}
+	}
+	if r.out.ended && (!r.in.ended || len(out) != len(in)) {
+		bad("the stream reported the end although the iterator %s", map[bool]string{true: "delivered an item that was never handed out", false: "has not reported its end"}[r.in.ended])
+	}
+}
+
 func newTap(reg *registry, p stream.Stream[any]) *tapS {
 	t := &tapS{inner: p}
 	reg.taps = append(reg.taps, t)
@@ -623,7 +685,7 @@ func buildS(reg *registry, toks []string) (stream.Stream[any], bool) {
 		p = stream.Error[any](inj("f" + strconv.Itoa(atoi(arg))))
 	case "fromit":
 		api("stream.FromIterator")
-		p = stream.FromIterator[any](newISrc(reg, arg, false))
+		p = tappedFromIterator(reg, newISrc(reg, arg, false))
 	case "chan":
 		api("stream.Chan")
 		p = stream.Chan[any](filledChan(arg))
@@ -818,17 +880,18 @@ func finishX(l []any, tok string) string {
 // executing op lines on the implementation
 
 type implState struct {
-	reg   registry
-	sp    stream.Stream[any]
-	ips   []iterator.Iterator[any]
-	peekS stream.Peekable[any]
-	peekI iterator.Peekable[any]
-	runsS stream.Stream[stream.Stream[any]]
-	runsI iterator.Iterator[iterator.Iterator[any]]
-	innS  map[int]stream.Stream[any]
-	innI  map[int]iterator.Iterator[any]
-	gen   int
-	tapAt []tapMark // after every executed line: what the last tap of the case had delivered by then
+	reg        registry
+	sp         stream.Stream[any]
+	ips        []iterator.Iterator[any]
+	peekS      stream.Peekable[any]
+	peekI      iterator.Peekable[any]
+	runsS      stream.Stream[stream.Stream[any]]
+	runsI      iterator.Iterator[iterator.Iterator[any]]
+	innS       map[int]stream.Stream[any]
+	innI       map[int]iterator.Iterator[any]
+	gen        int
+	tapAt      []tapMark // after every executed line: what the last tap of the case had delivered by then
+	closedSeen bool      // a close op has been executed (fromitRec.judge stops there)
 }
 
 type tapMark struct {
@@ -875,6 +938,14 @@ func (st *implState) exec(line string) (out string) {
 		m = tapMark{len(t.got), t.ended}
 	}
 	st.tapAt = append(st.tapAt, m)
+	if !st.closedSeen {
+		for _, r := range st.reg.fromits {
+			r.judge(len(st.tapAt) - 1)
+		}
+	}
+	if strings.Contains(f[0], "close") {
+		st.closedSeen = true // what a stream does after a Close is the consumer's business: not judged
+	}
 	if p {
 		return "panic" + logs()
 	}
